@@ -102,7 +102,13 @@ def rule_open_options(ctx, p, cfg, rid="R4"):
         agg = p.aggregates(ADT)
         if agg:
             fobj = agg[0]
-            e = b._rvalue(fobj[3], frozenset(), 40, fobj[1])
+            if fobj[0].kind == "Closure":
+                # read on the view where Result::map(closure) is the match it denotes: the literal is then build()'s own
+                br = p.fn_results(BUILD)
+                lit = [(bb_, st_) for bb_, i_, st_ in br.assigns() if st_["rv"]["k"] == "agg" and st_["rv"].get("adt") == ADT]
+                e = br._rvalue(lit[0][1]["rv"], frozenset(), 40, lit[0][0]) if lit else ("agg", ADT, None, ())
+            else:
+                e = b._rvalue(fobj[3], frozenset(), 40, fobj[1])
             wf = writer_field(p)
             fe = [v for n, v in e[3] if n == wf["name"]]
             has_open = bool(fe) and any(x[0] == "call" and x[1] == "std::fs::OpenOptions::open" for x in walk(fe[0]))
@@ -187,7 +193,9 @@ def run_cfg(ctx, p, cfg):
         r.require(readers == [APPEND], "only-append-touches-writer",
                   detail="functions mentioning FileAppender.%s: %s" % (wf["name"], readers))
         aggs = p.aggregates(ADT)
-        r.require([a[0].path for a in aggs] == [BUILD], "constructed-only-in-build",
+        # `.open(&path).map(|file| FileAppender { .. })`: the literal sits in a closure of build() handed to Result::map
+        homes = sorted({(a[0].d.get("closure_of") or a[0].path) if a[0].kind == "Closure" else a[0].path for a in aggs})
+        r.require(homes == [BUILD], "constructed-only-in-build",
                   detail="FileAppender aggregates: %s" % [a[0].path for a in aggs])
         mod_fns = [f for f in p.fns.values() if f.path.startswith("append::file::") or "append::file::FileAppender" in f.path]
         bad = []
